@@ -138,6 +138,17 @@ CHECKS = {
         design_ref='DESIGN.md section 2, C08',
         note='Trusted: mc/ref/identity.py. Cases whose verdict depends on how key tables propagate to ancestors are counted, not judged. Known findings: scope element '
              'nested in itself (counter reset), keyref declared above the scope element of its key, KeyError when the key scope element never occurs.'),
+    'C17': dict(
+        technique='explicit-state exploration of the namespace mapper as a state machine (BFS with state hashing) + exhaustive enumeration of small redeclaring documents; list-of-dicts scope-stack reference',
+        text='Model checking: (a) the NamespaceMapper is driven exactly as the decoders drive it through ALL pre-order walks of trees of depth <= 3 (thorough 4), fan-out <= 2, '
+             '9 xmlns choices per node, 4 processing modes x 3 user maps; states (walk position, namespaces, reverse map, context stack) are hashed and counted, and after every '
+             'event the in-scope map equals a list-of-dicts reference and unmap(map(n)) == n for a name pool; (m) the mapper as a mutable mapping explored to a fixpoint against a '
+             'plain dict; (b) every document of 13 shapes (<= 7 elements) with <= 2 (thorough 3) declaring/prefixed deviations x modes x 4 converters x user maps: each decoded key, '
+             'resolved with the xmlns entries the data reports on the node and its ancestors, must denote the expanded name of the XML node, and encode(decode(d)) must restore the names.',
+        design_ref='DESIGN.md section 2, C17',
+        note='Trusted: mc/ref/nsstack.py. Single-map modes that cannot denote a no-namespace element under a default namespace and unprefixed-attribute keys under a default namespace are '
+             'counted, not judged. Known findings: level-1 declarations loaded as root declarations on encode, unprefixed attributes / no-namespace children admitted by wildcards '
+             'encoded into the default namespace.'),
 }
 
 PENDING_REASON = 'check not built yet in this session; the design (DESIGN.md section 2) applies bounded exhaustive exploration to it'
